@@ -3786,11 +3786,11 @@ class Union(Construct):
             index = self.parsefrom
             self.subcons[index] # raises IndexError
             skipfallback = True
-            skipforward = self.subcons[index].sizeof() == self.subcons[-1].sizeof()
+            skipforward = False
         if isinstance(self.parsefrom, str):
             index = {sc.name:i for i,sc in enumerate(self.subcons) if sc.name}[self.parsefrom] # raises KeyError
             skipfallback = True
-            skipforward = self.subcons[index].sizeof() == self.subcons[-1].sizeof()
+            skipforward = False
 
         for i,sc in enumerate(self.subcons):
             block += """
